@@ -1056,6 +1056,19 @@ class Ctx:
                     outcome = ["ok", self.digest_of(res)]
                 if store and rm.is_op(_first_op(res)) and store not in self.pool:
                     self.pool[store] = Entry(_first_op(res), None, None, False, {"k": "result", "of": step["fn"]}, sid)
+                elif self.prop == "C18" and step["op"] == "call":
+                    # the caller keeps every operator a call returned (Q/T of lanczos, factors, eigenvector operators):
+                    # they join the pool under anonymous slots (the most recent 6) and are watched like any other value
+                    held = [o for o in _all_ops(res) if o is not None][:3]
+                    for j, o in enumerate(held):
+                        if any(e.op is o for e in self.pool.values()):
+                            continue
+                        name = "~h%d_%d" % (sid, j)
+                        self.pool[name] = Entry(o, None, None, False, {"k": "result", "of": step["fn"]}, sid)
+                        self.stats["result_operators_held"] += 1
+                    anon = [k for k in self.pool if k.startswith("~h")]
+                    for k in anon[:-6]:
+                        del self.pool[k]
         self._materialise(sid, cur, f, k)
         self._last_used = cur.used
         self._last_ncb = cur.nprod_top
@@ -1088,6 +1101,16 @@ class Ctx:
 
 def sid_of(step):
     return step["id"]
+
+
+def _all_ops(res, depth=0):
+    if rm.is_op(res):
+        return [res]
+    out = []
+    if isinstance(res, (tuple, list)) and depth < 3:
+        for r in res:
+            out.extend(_all_ops(r, depth + 1))
+    return out
 
 
 def _first_op(res):
